@@ -14,7 +14,7 @@ pub struct Job {
     pub shape: &'static str,
 }
 
-pub const SHAPES: [&str; 5] = ["sole", "clone", "shared_ab", "shared_ba", "other_thread"];
+pub const SHAPES: [&str; 6] = ["sole", "clone", "shared_ab", "shared_ba", "other_thread", "concurrent"];
 
 pub fn jobs(thorough: bool) -> Vec<Job> {
     let mut v = vec![];
@@ -25,6 +25,9 @@ pub fn jobs(thorough: bool) -> Vec<Job> {
         for &stack in stacks.iter() {
             for shape in SHAPES.iter() {
                 for &n in play_ns.iter() {
+                    if *shape == "concurrent" && n != 1000 {
+                        continue;
+                    }
                     // the longest played games are run once per profile and stack with every shape only in thorough
                     if !thorough && n >= 30_000 && !(*shape == "sole" || *shape == "shared_ab") {
                         continue;
@@ -32,6 +35,9 @@ pub fn jobs(thorough: bool) -> Vec<Job> {
                     v.push(Job { profile, mode: "play", n, stack, shape });
                 }
                 for &n in syn_ns.iter() {
+                    if *shape == "concurrent" && !(n == 1000 || n == 100_000) {
+                        continue;
+                    }
                     v.push(Job { profile, mode: "synthetic", n, stack, shape });
                 }
             }
@@ -104,4 +110,56 @@ pub fn run(prop: &str, thorough: bool) -> (FamilyResult, bool) {
     }
     st.sample(0, format!("{:?}", all.iter().step_by(all.len() / 4 + 1).map(|j| format!("{} {} N={} stack={} {}", j.profile, j.mode, j.n, j.stack, j.shape)).collect::<Vec<_>>()));
     (FamilyResult { explorer: "E7".into(), family: fam, complete: !machinery, note: String::new(), stats: st, wall_s: t0.elapsed().as_secs_f64() }, machinery)
+}
+
+/// E6 for C20: loom body B6 - several owners of a history sharing a 300-node tail drop it concurrently; under every
+/// interleaving (within the bound) the stack used below the drop call must stay under a fixed limit.
+pub fn loom_b6(prop: &str, thorough: bool) -> (FamilyResult, bool) {
+    let t0 = Instant::now();
+    let fam = "E6 loom body B6: k owners of lists sharing a 300-node tail drop them concurrently; stack depth probe in every element's Drop (limit 4096 bytes), all interleavings within the preemption bound".to_string();
+    let exe = crate::verif_dir().join("target").join("loom").join("release").join("loomh");
+    let jobs: Vec<(usize, &str)> = if thorough { vec![(2, "none"), (3, "none"), (4, "3")] } else { vec![(2, "none"), (3, "3")] };
+    let mut st = Stats::default();
+    let mut machinery = false;
+    for (i, (threads, bound)) in jobs.iter().enumerate() {
+        let out = Command::new(&exe).args(["run", "B6", &threads.to_string(), bound]).output();
+        match out {
+            Err(e) => {
+                eprintln!("MACHINERY: cannot run {}: {}", exe.display(), e);
+                machinery = true;
+            }
+            Ok(o) => {
+                let stdout = String::from_utf8_lossy(&o.stdout).to_string();
+                let stderr = String::from_utf8_lossy(&o.stderr).to_string();
+                if o.status.success() {
+                    if let Some(j) = stdout.lines().last().and_then(|l| serde_json::from_str::<serde_json::Value>(l).ok()) {
+                        let ex = j["executions"].as_u64().unwrap_or(0);
+                        st.states += ex;
+                        st.transitions += ex * 300 * (*threads as u64);
+                        st.add("c20_loom_executions", ex);
+                        st.add("c20_loom_max_drop_depth_bytes_sum", j["max_drop_depth_bytes"].as_u64().unwrap_or(0));
+                        st.roots += 1;
+                    } else {
+                        machinery = true;
+                    }
+                } else {
+                    let msg: Vec<&str> = stderr.lines().filter(|l| l.contains("B6") || l.contains("panicked") || l.contains("overflow")).collect();
+                    report::report(Violation {
+                        property: prop.into(),
+                        explorer: "E6".into(),
+                        family: fam.clone(),
+                        root_idx: 1000 + i as u64,
+                        root: format!("target/loom/release/loomh run B6 {} {}", threads, bound),
+                        config: serde_json::json!({"body": "B6", "threads": threads, "preemption_bound": bound}),
+                        actions: vec![],
+                        what: "C20: under some interleaving of concurrent drops, freeing a shared history uses stack proportional to its length (or the process dies)".into(),
+                        observed: format!("exit {:?}: {}", o.status.code(), msg.join(" | ")),
+                        expected: "bounded stack depth in every interleaving".into(),
+                    });
+                }
+            }
+        }
+    }
+    st.sample(0, "2 threads, unbounded preemptions: both own a clone of a 300-node list of Probe elements; each records the deepest stack address seen in an element's Drop relative to its drop call".to_string());
+    (FamilyResult { explorer: "E6".into(), family: fam, complete: !machinery, note: String::new(), stats: st, wall_s: t0.elapsed().as_secs_f64() }, machinery)
 }
